@@ -91,7 +91,7 @@ def isReservedVerilogKeyword(str):
                 'xor','xnor']
 
     reserved2001 = ['automatic',
-                    'cell','config',
+                    'cell','config','design',
                     'endconfig','endgenerate',
                     'generate','genvar',
                     'incdir','include','instance',
@@ -99,7 +99,7 @@ def isReservedVerilogKeyword(str):
                     'noshowcancelled',
                     'pulsestyle_ondetect','pulsestyle_onevent',
                     'showcancelled','signed',
-                    'unsigned','use' ]
+                    'unsigned','use','uwire' ]
 
 
     reservedSV = ['accept_on','alias','always_comb','always_ff','always_latch','assert','assume',
